@@ -22,6 +22,7 @@ def bfs(starts, build, actions, canon, on_state, max_depth, bisim=True, on_trans
     seen = {}  # key -> representative history
     succ_of = {}  # key -> {action: key'}
     checked_second = set()
+    mismatches = []
     frontier = deque()
     n_trans = 0
     n_hist = 0
@@ -66,14 +67,25 @@ def bfs(starts, build, actions, canon, on_state, max_depth, bisim=True, on_trans
                     continue
                 acts_rep = list(actions(robj))
                 acts_new = list(actions(nobj))
+                mismatch = None
                 if acts_rep != acts_new:
-                    raise BisimulationError(f"enabled actions differ for merged state {nk}: {rep} vs {nh}")
-                for b in acts_rep:
-                    k1 = canon(build(rep + (b,)))
-                    k2 = canon(build(nh + (b,)))
-                    n_trans += 2
-                    if k1 != k2:
-                        raise BisimulationError(
-                            f"abstraction unsound: {rep}+{b!r} -> {k1} but {nh}+{b!r} -> {k2}")
+                    mismatch = f"enabled actions differ for merged state {nk}: {rep} vs {nh}"
+                else:
+                    for b in acts_rep:
+                        k1 = canon(build(rep + (b,)))
+                        k2 = canon(build(nh + (b,)))
+                        n_trans += 2
+                        if k1 != k2:
+                            mismatch = f"abstraction unsound: {rep}+{b!r} -> {k1} but {nh}+{b!r} -> {k2}"
+                            break
+                if mismatch is not None:
+                    # The implementation distinguishes two histories the abstraction merged.  Keep exploring
+                    # from the second history as a state of its own (so that nothing is hidden) and let the
+                    # caller decide: with violations found it is evidence of the defect, without it is a
+                    # harness error (the abstraction must be refined).
+                    mismatches.append(mismatch)
+                    split_key = ("split", nk, len(mismatches))
+                    seen[split_key] = nh
+                    frontier.append((nh, split_key, depth + 1))
     return {"states": len(seen), "transitions": n_trans, "depth": max_seen_depth, "fixpoint": fixpoint,
-            "histories": n_hist, "bisim_checked": len(checked_second)}
+            "histories": n_hist, "bisim_checked": len(checked_second), "bisim_mismatches": mismatches}
